@@ -7,6 +7,8 @@ restarts).  The theorems here establish that the reference IS a plain file syste
 written is read back, what was created is found, read-only procedures and restarts change
 nothing, refused procedures have no effect.
 -/
+import GoNfsd.Lemmas.DirData
+import GoNfsd.Lemmas.Files
 import GoNfsd.Lemmas.Lookup
 import GoNfsd.Lemmas.BlockMap
 import GoNfsd.Lemmas.Names
@@ -221,5 +223,24 @@ theorem mapping_one_block_moves_no_other (s : GoNfsd.Model.BlockMap.S) (blks : L
   rw [GoNfsd.Model.BlockMap.lookup_eq_ptr, GoNfsd.Model.BlockMap.lookup_eq_ptr]
   obtain ⟨hv, hd⟩ := GoNfsd.Model.BlockMap.posOf_valid bn' hbn'
   exact (GoNfsd.Model.BlockMap.bmap_ok s blks bn h hbn).frame _ hv hd (fun he => hne (GoNfsd.Model.BlockMap.posOf_inj _ _ he))
+
+/-! ### read your writes, down to the disk blocks (models M7d / `G`) -/
+
+open GoNfsd.Model.FileData in
+/-- What a WRITE stored is what a READ of the same range returns — whatever blocks the file had,
+    whichever holes the write filled with blocks from the allocator, wherever the range lies. -/
+theorem read_your_write_on_disk_blocks (f : F) (fresh : Nat → Nat) (off : Nat) (bytes : List UInt8)
+    (h : Inv f) (hf : FreshOK f fresh) :
+    (f.write fresh off bytes).read off bytes.length = bytes := read_written f fresh off bytes h hf
+
+open GoNfsd.Model.FileData in
+/-- ... and on a disk shared by many files a READ of any file returns what the reference model's
+    content log of THAT file says, after any history of writes and size changes to any of them. -/
+theorem reads_agree_with_the_reference_on_shared_blocks (ops : List GOp) (hf : GFreshAll G.empty ops)
+    (a off n : Nat) :
+    ((ops.foldl G.apply G.empty).file a).read off n =
+      GoNfsd.Model.Fs.readBytes ((ops.foldl logsApply (fun _ => ([], 0))) a).1 off n := by
+  obtain ⟨_, hr⟩ := ghistory_refines ops G.empty (fun _ => ([], 0)) gempty_inv gempty_rel hf
+  exact read_refines _ _ _ off n (hr a)
 
 end GoNfsd.Props.C02
